@@ -103,12 +103,41 @@ func sharedFacts(work string, names []string) (map[string][]sharedSite, error) {
 		}
 		render := func(e ast.Node) string { return identPath(p.Fset, e) }
 		for _, f := range p.Syntax {
+			// function literals bound to package-level variables (`var LogError = func...`) run on the
+			// request goroutines like declared functions do
+			var decls []ast.Decl
 			for _, d := range f.Decls {
+				decls = append(decls, d)
+				if gd, ok := d.(*ast.GenDecl); ok && gd.Tok == token.VAR {
+					for _, sp := range gd.Specs {
+						vs, ok := sp.(*ast.ValueSpec)
+						if !ok {
+							continue
+						}
+						for vi, val := range vs.Values {
+							name := "_"
+							if vi < len(vs.Names) {
+								name = vs.Names[vi].Name
+							}
+							ast.Inspect(val, func(n ast.Node) bool {
+								if lit, ok := n.(*ast.FuncLit); ok {
+									decls = append(decls, &ast.FuncDecl{Name: ast.NewIdent("var:" + name), Type: lit.Type, Body: lit.Body})
+								}
+								return true
+							})
+						}
+					}
+				}
+			}
+			for _, d := range decls {
 				fd, ok := d.(*ast.FuncDecl)
 				if !ok || fd.Body == nil {
 					continue
 				}
 				where := "func"
+				if strings.HasPrefix(fd.Name.Name, "var:") {
+					where = "func-literal-of-" + fd.Name.Name
+				}
 				var recvObj types.Object
 				service := false
 				if fd.Recv != nil && len(fd.Recv.List) == 1 {
